@@ -43,13 +43,13 @@ def storer_part(ctx, thorough):
 SPEC = dict(
     sig="vars", scope=scope,
     sc_list=[
-        dict(family="vars", n=(60, 40), mc=dict(max_calls=10, after_end=0, host_writes=True, max_host_sets=1),
+        dict(family="vars", n=(60, 110), mc=dict(max_calls=10, after_end=0, host_writes=True, max_host_sets=1),
              mc_thorough=dict(max_host_sets=2, max_calls=6),
              invariants=["ReadsSeeHostWrites", "NextStatementFrozen"], properties=PROPS, bugs=[("failedSetWrites", ["NextStatementFrozen"], ["FailedStepFrozen"])]),
-        dict(family="vars", storer="map", n=(150, 800), mc=dict(max_calls=10, after_end=0),
+        dict(family="vars", storer="map", n=(150, 3000), mc=dict(max_calls=10, after_end=0),
              invariants=INV, properties=PROPS),
     ],
-    cs=[dict(family="vars", n=(120, 700), paths=(3, 5), calls=14, hostsets=True,
+    cs=[dict(family="vars", n=(120, 2500), paths=(3, 5), calls=14, hostsets=True,
              label="YarnTrace: longer assignment histories with host writes (recording storer)"),
         dict(family="vars", storer="inmemory", n=(60, 300), paths=(3, 5), calls=14, hostsets=True,
              label="YarnTrace: host writes through a host-supplied variable.InMemoryStorer")],
